@@ -41,6 +41,8 @@ func runC14(c *Ctx, r *Report) {
 	r.Doc("R-C14.3", "no recursive acquisition of one IPFSLog lock (a merge from a log that is merely being appended to must terminate)")
 	r.Doc("R-C14.4", "the head map a merge read from the source is an immutable snapshot: Merge builds a new map and never writes into its receiver or argument")
 	pureMerge(c, r, "R-C14.4")
+	r.Doc("R-C14.5", "a merge never blocks on a channel while it holds a log lock (a bounded worker pool whose tokens are not returned on the failure path leaves the destination locked for good)")
+	importRules(c, r, "C13", []string{"R-C13.5"}, "R-C14.5", 0) // a tree without any channel operation under a lock has nothing to adopt
 	nrec := 0
 	for _, e := range le.Edges {
 		if e.HeldClass == "IPFSLog.lock" && e.AcqClass == "IPFSLog.lock" && e.HeldBase == e.AcqBase {
